@@ -20,6 +20,26 @@ Theorem C01_response_to_own_request : forall n ls s c t,
 Proof. exact own_response. Qed.
 Print Assumptions C01_response_to_own_request.
 
+(* End to end, with no hypothesis on the network, the timers, the callers or the closers: under an honest
+   server, for every schedule, whatever exec returned to a caller as a response (a result frame, an ERROR
+   frame, or a body that could not be decoded) is the answer to that caller's own request; and whatever
+   the receiving goroutine is holding for a call at any moment is that call's own answer. *)
+Theorem C01_end_to_end_own_token : forall n ls s c,
+  0 < n -> run (init n) ls = Some s -> honest (init n) ls ->
+  (forall o, ph (callers s c) = PDone o ->
+     match o with OResp (RTok t) | OResp (RBodyErr t) => t = c | _ => True end)
+  /\ (forall r opn, ph (callers s c) = PGot r opn ->
+     match r with RTok t | RBodyErr t => t = c | RCloseErr => True end)
+  /\ (forall r, rcv s = RDeliver c r -> match r with RTok t | RBodyErr t => t = c | RCloseErr => False end).
+Proof.
+  intros n ls s c Hn Hr Hh. pose proof (own_response n ls s c) as H. destruct (reach_inv n ls s Hn Hr Hh) as [_ [I1 _]].
+  split; [|split].
+  - intros o Hp. destruct o; auto. destruct r; auto; apply H; auto; unfold handed; rewrite Hp; reflexivity.
+  - intros r opn Hp. destruct r; auto; apply H; auto; unfold handed; rewrite Hp; reflexivity.
+  - intros r Hrc. pose proof (j_rcv s I1) as J. rewrite Hrc in J. destruct r; intuition.
+Qed.
+Print Assumptions C01_end_to_end_own_token.
+
 (* The receiver's lookup: whenever a frame is at the head of the wire and a call is registered under its
    stream id, that call is the request the frame answers. *)
 Theorem C01_lookup_finds_owner : forall n ls s id t rest c,
